@@ -122,6 +122,71 @@ theorem c12_stderr (x : StatExt K) (o : XOps K) (st : U.State) (Yw : Mat n 1 K)
   exact ⟨hnn, hsqrt _ hnn⟩
 end field
 
+/-! ### model errors during the statistics -/
+section modelErrors
+variable {K E : Type} {n m p : Nat} {U : UserModel n m p K E}
+variable [Add K] [Sub K] [Mul K] [Div K] [Zero K]
+
+/-- the derivative columns are all-or-nothing: present only when EVERY requested derivative
+evaluated, and then there is exactly one column per requested index, in order -/
+theorem derivCols_some_length (c : Mat m 1 K) (ks : List (Fin p)) (st : U.State)
+    (cols : List (Fin p × Mat n 1 K)) (h : (derivCols U c st ks).2 = some cols) :
+    cols.map (·.1) = ks := by
+  induction ks generalizing st cols with
+  | nil => simp [derivCols] at h; subst h; rfl
+  | cons k rest ih =>
+    unfold derivCols at h
+    cases hd : U.deriv st k with
+    | mk st1 r =>
+      cases r with
+      | error e => simp [hd] at h
+      | ok D =>
+        simp only [hd] at h
+        cases hr : derivCols U c st1 rest with
+        | mk st2 o =>
+          cases o with
+          | none => simp [hr] at h
+          | some cs =>
+            simp only [hr] at h
+            have := ih st1 cs (by rw [hr])
+            cases h
+            simp [this]
+
+/-- **c12_failing_derivative**: if a derivative call made for the statistics fails – whichever of
+the `P` calls it is – there are no derivative columns at all (none is silently dropped), the
+Jacobian of the model function is absent and `try_calculate` returns the model-evaluation error:
+`fit_with_statistics` cannot return statistics computed from fewer columns. -/
+theorem c12_failing_derivative (x : StatExt K) (o : XOps K) (st : U.State) (Yw : Mat n 1 K)
+    (w : Option (Vector K n)) (c : Mat m 1 K)
+    (h : (derivCols U c st (List.finRange p)).2 = none) :
+    (modelFunctionJacobian U st c).2 = none ∧
+    (tryCalculate x o U st Yw w c).2 = .error .modelEvaluation := by
+  have hj : (modelFunctionJacobian U st c).2 = none := by
+    unfold modelFunctionJacobian
+    cases hd : derivCols U c st (List.finRange p) with
+    | mk st1 oc =>
+      rw [hd] at h
+      simp only at h
+      subst h
+      rfl
+  refine ⟨hj, ?_⟩
+  unfold tryCalculate
+  cases hm : modelFunctionJacobian U st c with
+  | mk st1 oj =>
+    rw [hm] at hj
+    simp only at hj
+    subst hj
+    rfl
+
+/-- one failing call suffices: if the call for index `k` fails in the state the calls before it
+left behind, the columns are absent (first-failure form of the hypothesis above) -/
+theorem derivCols_first_failure (c : Mat m 1 K) (st : U.State) (k : Fin p) (rest : List (Fin p))
+    (e : E) (st1 : U.State) (h : U.deriv st k = (st1, .error e)) :
+    (derivCols U c st (k :: rest)).2 = none := by
+  simp [derivCols, h]
+
+end modelErrors
+
 /-! ### the subtraction on `usize`: no panic in either build profile -/
 namespace Shape
 
